@@ -1097,6 +1097,12 @@ func (a *Assembler) cleanSG(half *halfconnection, ac AssemblerContext) {
 	var saved *page
 	for _, r := range a.cacheSG.all[ndx:] {
 		first, last, nb := r.convertToPages(a.pc, skip, ac)
+		if _, queued := r.(*page); !queued {
+			// Pages made here for bytes of the packet being processed are
+			// buffered for this connection like any other: they are subtracted
+			// from half.pages when they are released, so they have to be added.
+			half.pages += nb
+		}
 
 		// Only the first kept container is entered part-way.
 		skip = 0
@@ -1153,7 +1159,7 @@ func (a *Assembler) addPending(half *halfconnection, firstSeq Sequence) int {
 		var next *page
 		for p := half.saved; p != nil; p = next {
 			next = p.next
-			p.release(a.pc)
+			half.pages -= p.release(a.pc)
 		}
 		half.saved = nil
 		ret = []byteContainer{}
